@@ -212,8 +212,9 @@ def check_one(case):
 def check_sizes(case):
     """case: {"dir", "lens": [..], "frags": {...}, "fmt"}"""
     n = nt = 0
-    for L in case["lens"]:
-        sub = {"dir": case["dir"], "len": L, "seed": L, "fmt": case.get("fmt", ".bin"), "frags": case["frags"], "observers": case.get("observers", [])}
+    for item in case["lens"]:
+        L, fmt = (item, case.get("fmt", ".bin")) if isinstance(item, int) else item
+        sub = {"dir": case["dir"], "len": L, "seed": L, "fmt": fmt, "frags": case["frags"], "observers": case.get("observers", [])}
         try:
             r = run_blob(sub)
         except Failure as f:
@@ -244,6 +245,22 @@ def size_list(tier):
     return sorted(lens)
 
 
+ALIGN_FORMATS = [".z", ".gz", ".bin", ".fits"]  # lengths 2..5: base64 grows in steps of 4, so one of them hits every residue
+
+
+def aligned_cases(direction):
+    """(length, format) pairs for which the serialized message (declaration + element + newline) is an exact
+    multiple of the 1024-byte read size, i.e. the last read of the message is a full one."""
+    tag = "setBLOBVector" if direction == "down" else "newBLOBVector"
+    out = []
+    for fmt in ALIGN_FORMATS:
+        for L in range(0, 1701):
+            total = len('<?xml version="1.0"?>\n') + set_blob_length(payload(L, L), fmt, tag) + 1
+            if total % 1024 == 0:
+                out.append([L, fmt])
+    return out
+
+
 def size_blocks(tier):
     lens = size_list(tier)
     for d in ("down", "up"):
@@ -251,6 +268,7 @@ def size_blocks(tier):
             use = lens if fi != 1 or tier == "thorough" else [L for L in lens if L <= 64 or L % 3 == 0]
             for i in range(0, len(use), 12):
                 yield {"dir": d, "lens": use[i:i + 12], "frags": frags}
+        yield {"dir": d, "lens": aligned_cases(d), "frags": FRAGSETS[0]}
 
 
 frag = st.lists(st.sampled_from([1, 2, 5, 64, 1023, 1024]), min_size=1, max_size=3)
@@ -270,7 +288,7 @@ matrix_case = st.fixed_dictionaries(
 
 def run(ctx):
     cnt = ctx.each("sizes", size_blocks(ctx.tier), check_sizes, stop_after=4, timeout=900)
-    ctx.exhaustive["sizes"] = {"complete": True, "n_blocks": cnt, "bound": ("every length 0..1700" if ctx.tier == "thorough" else "every length 0..64 and +-6 around 660/768/1365/1410/1536") + " x {down, up} x 3 fragmentations"}
+    ctx.exhaustive["sizes"] = {"complete": True, "n_blocks": cnt, "bound": ("every length 0..1700" if ctx.tier == "thorough" else "every length 0..64 and +-6 around 660/768/1365/1410/1536") + " x {down, up} x 3 fragmentations; plus every (length, format) whose message is an exact multiple of the 1024-byte read size"}
     ctx.hyp("matrix", matrix_case, check_one, ctx.scale(120, 2500), timeout=120)
     if ctx.tier == "thorough":
         big = [{"dir": "down", "len": L, "seed": 3, "fmt": ".fits", "frags": f, "observers": [{"type": "raw", "policy": "Only", "frag": [1024]}, {"type": "raw", "policy": None, "frag": [1024]}]}
